@@ -61,8 +61,8 @@ def main():
     meta['detected'] = any(v['exit'] == 1 for v in results.values())
     d = os.path.join(V, 'seeded', '%s-%s' % (prop, n)); os.makedirs(d, exist_ok=True)
     shutil.copy(diff, d + '/patch.diff'); shutil.copy(demo, d + '/seed_demo.rs')
-    rep = out + '/REPORT.md'
-    if os.path.exists(rep): shutil.copy(rep, d + '/AGENT_REPORT.md')
+    for rep in (out + '/REPORT.md', out + '/REPORT.txt'):
+        if os.path.exists(rep): shutil.copy(rep, d + '/AGENT_REPORT.md')
     meta['ran'] = ['cargo test -p ommx --offline --test seed_demo_%s (HEAD: pass, with change: fail)' % n, 'cargo test -p ommx --lib --offline (with change: 102 pass)',
                    'git -C /repo apply patch.diff; ./run check %s --tier quick; git -C /repo checkout -- .' % ','.join(props)]
     json.dump(meta, open(d + '/meta.json', 'w'), indent=1)
